@@ -67,6 +67,7 @@ func init() {
 	Plans["C13"] = planC13
 	Plans["C18"] = planC18
 	Plans["C05"] = planC05
+	Plans["C12"] = planC12
 }
 
 // Alphabets for S(L,Σ) (DESIGN 1.8) and token sets for token-mode sources.
@@ -418,5 +419,39 @@ func planC05(tier string, seed int64) (*Plan, error) {
 	b["extra"] = "S(5,{a,|,-,:,LF}) with GFM (tables), S(6,{a,-,=,LF,space,>}) and S(6,blocks) core, every sequence of 7 tokens from 'nestlinks' (nested link/image/emphasis constructs)"
 	p.Bounds = b
 	p.Rule = "every node of every tree returned by Parse on every path is checked through the public ast.Node accessors"
+	return p, nil
+}
+
+func planC12(tier string, seed int64) (*Plan, error) {
+	p := &Plan{MustReach: []string{"done"}}
+	core, all := cfg("core", "", ""), cfg(allExt, "autoid,attr", "")
+	cfgs := []string{core, cfg("gfm", "", "unsafe"), cfg("deflist,footnote", "", ""), cfg("typographer,cjk", "attr", "xhtml"), all}
+	s3 := []string{core}
+	nwin := 150
+	if tier == "thorough" {
+		s3 = cfgs
+		nwin = 3000
+	}
+	jobs, b, err := convertFamilies("H_c12_convert", tier, seed, cfgs, s3, []string{core, all}, nwin)
+	if err != nil {
+		return nil, err
+	}
+	jobs = append(jobs, job("H_c12_convert", "cfg", core, "n", 7, "alpha", "`a\n "))
+	jobs = append(jobs, job("H_c12_convert", "cfg", all, "n", 6, "alpha", "`a\n|-"))
+	nu := 2
+	if tier == "thorough" {
+		nu = 3
+	}
+	for n := 0; n <= nu; n++ {
+		jobs = append(jobs, job("H_c12_util", "n", n))
+	}
+	jobs = append(jobs, job("H_c12_util", "n", nu+2, "alpha", "a \t\nA&;"))
+	jobs = append(jobs, job("H_c12_util", "n", nu+3, "alpha", "a \n"))
+	p.Jobs = jobs
+	b["extra"] = "S(7,{`,a,LF,space}) core and S(6,{`,a,LF,|,-}) all extensions (code spans and tables across lines)"
+	b["util"] = fmt.Sprintf("each of 14 groups of exported util functions on every byte string of length 0..%d (256 values), length %d over {a,space,TAB,LF,A,&,;} and length %d over {a,space,LF}; argument placed in a buffer with 4 bytes of spare capacity", nu, nu+2, nu+3)
+	p.Bounds = b
+	p.Assumptions = []string{"the write barrier is the interpreter's: every Store, copy and in-place append targeting a cell of the source buffer (or of the 8 sentinel bytes of spare capacity behind it) is reported, whether or not it changes the byte; a real PROT_READ page fault is not produced"}
+	p.Rule = "source buffer and its spare capacity under a read-only write barrier during Convert and Parse+Render"
 	return p, nil
 }
